@@ -15,6 +15,7 @@ structure Repairs where
   split : Bool := false    -- (c) a number touching the end of the buffer: read on first
   inval : Bool := false    -- (d) -ERR_INVAL from the skip: syntax error at once, no read
   pos : Bool := false      -- (e) advance by Decoder.Pos(), not by the skipped extent
+  clamp : Bool := false    -- (f) ... but never beyond the frame (Pos() counts in the UTF-8-corrected copy)
 deriving DecidableEq, Repr
 
 namespace Patched
@@ -100,7 +101,8 @@ def decode (rp : Repairs) (st : DState) (sc : Script) (f : RErr) : DecodeRes V Ã
           match dec ((st2.buf.drop s').take (e - s')) with
           | none => (.error .syntaxError, setErr st2 .syntaxError, sc2, f2)
           | some (v, n) =>
-            (.value v, finish { st2 with scanp := if rp.pos then s' + n else e }, sc2, f2)
+            (.value v, finish { st2 with scanp :=
+              if rp.pos then s' + (if rp.clamp then min n (e - s') else n) else e }, sc2, f2)
 
 end Patched
 end SonicSpec.IO
